@@ -5,9 +5,14 @@ CONSTANTS
   MaxDefects = 2
   MaxRenames = 1
   MaxWithRename = 2
-  Spares = {"none", "fresh", "twin"}
+  Spares = {"none", "twin"}
   Embeds = {"none", "genuine", "foreign"}
 INVARIANT Agree
 INVARIANT ReportsTarget
+INVARIANT OffPathIrrelevant
+INVARIANT NamesFirstBad
+INVARIANT NamesIrrelevant
+INVARIANT LoadErrorIffNoPath
+INVARIANT Bounded
 INVARIANT EmitB
 CHECK_DEADLOCK FALSE
